@@ -577,6 +577,8 @@ class Interp:
         return ops.compare(t, a, b)
 
     def identical(self, a, b):
+        if getattr(a, "identity_semantics", False) or getattr(b, "identity_semantics", False):
+            return a is b           # abstract values of contract files that are compared by identity
         if isinstance(a, OptV) and b is None:
             return a.is_none
         if isinstance(b, OptV) and a is None:
